@@ -41,6 +41,19 @@ theorem call_chain_bounded (L : Nat) (p : List Nat) (hp : IsPath edges p)
     (hL : guardedCount guardedFn p ≤ L) : p.length ≤ (L + 1) * (maxRank + 1) :=
   chain_bounded edges guardedFn rankFn maxRank L certificate_checks rank_bounded p hp hL
 
+/-- Higher-order helpers (`parse_comma_separated`, `maybe_parse`, `parse_parenthesized`, … listed as
+`ho_helpers` by the translator) are transparent in the static graph: what a closure passed from `f`
+calls is an edge from `f`. A native chain therefore equals a static path with at most `h` extra
+frames (helper frames and the closure frame) per edge; the dynamic check removes exactly those
+frames before comparing sampled stacks with the graph. The native depth is then bounded too. -/
+theorem native_chain_bounded (L h pathLen extra : Nat)
+    (hp : pathLen ≤ (L + 1) * (maxRank + 1)) (he : extra ≤ h * pathLen) :
+    pathLen + extra ≤ (h + 1) * ((L + 1) * (maxRank + 1)) := by
+  have h1 : h * pathLen ≤ h * ((L + 1) * (maxRank + 1)) := Nat.mul_le_mul_left h hp
+  have e : (h + 1) * ((L + 1) * (maxRank + 1)) = h * ((L + 1) * (maxRank + 1)) + (L + 1) * (maxRank + 1) := by
+    rw [Nat.add_mul]; simp
+  rw [e]; omega
+
 /-- the depth counter is restored when a guarded construct ends, on success and on error -/
 theorem guard_restores {ε α : Type} (rle : ε) (body : Nat → Except ε α × Nat)
     (hb : ∀ d, (body d).2 = d) (k d : Nat) : (nestGuards rle body k d).2 = d :=
